@@ -42,13 +42,17 @@ Proof.
     try match goal with Hf : finish_op _ _ _ _ = _ |- _ =>
           let Hp := fresh "Hpend" in pose proof (proj1 (finish_pending _ _ _ _ _ _ Hf)) as Hp;
           let Hq := fresh "Hphi" in pose proof (proj1 (finish_phi cfg P _ _ _ _ _ Hf)) as Hq end;
-    cbn [sp sg st pending set_owner set_shutdown set_busy set_limit set_cap_limit enqueue pop
+    cbn [sp sg st pending set_owner set_shutdown set_busy set_limit set_cap_limit set_cap enqueue pop
          g_push g_pop g_drop g_refuse g_start g_done] in *;
     rewrite ?Hpend.
   all: try (mu_upd cfg P; unfold phi in *; cbn [t_pc set_pc t_ops t_posts t_worker t_cur] in *; rewrite ?Epc in *;
             unfold rest in *; cbn [t_pc set_pc t_ops t_posts t_worker t_cur] in *;
             rewrite ?sumf_app; cbn [sumf entW snd]; unfold entW; cbn [snd]; unfold WL2, FLW, FINAL in *; nia).
   - (* resize beyond the capacity: new workers *)
+    mu_upd cfg P. change (phi cfg P new_worker) with 2.
+    unfold phi in *; cbn [t_pc set_pc] in *; rewrite ?Epc in *. rewrite rest_set_pc in *. nia.
+  - (* resize beyond the capacity, pthread_create fails: fewer new workers *)
+    pose proof (created_le w (n - cap (sp s))) as Hcr. apply Nat.leb_gt in E0.
     mu_upd cfg P. change (phi cfg P new_worker) with 2.
     unfold phi in *; cbn [t_pc set_pc] in *; rewrite ?Epc in *. rewrite rest_set_pc in *. nia.
   - (* main joins the next client *)
@@ -77,5 +81,6 @@ Proof.
     rewrite ?app_length, ?upd_length, ?repeat_length, ?broadcast_length, ?signal_length, ?wake_pushers_length;
     sum_upd thrW thrW_wake_push thrW_wake_pop;
     unfold thrW in *; cbn [t_pc set_pc t_ops t_posts t_worker t_cur new_worker sumf] in *; rewrite ?Epc in *;
-    try (apply Nat.leb_gt in E0); lia.
+    try (apply Nat.leb_gt in E0);
+    try match goal with |- context [created ?ww ?d] => pose proof (created_le ww d) end; lia.
 Qed.
